@@ -18,6 +18,7 @@ checks = {
  "C10": (FE, "systematic grid: for every seeded base run each of 64 fault slots (construction, filter 1/2, k-th write, k-th read x {fatal, spurious deadline, zero-length}, k-th SetReadDeadline, multi-fault) is executed; (nil, err wrapping cause), exactly-once close, no use after close, no goroutine left", TECH + "k-th-call fault enumeration at the Source/Sink seam"),
  "C11": (EXPL, "seeded search over sets of 2-8 concurrent runs (and multi-run requests) on one wire where every handle sees every packet, allocator bases near wrap; each run compared with its solo reference fold, identifier sets of live runs pairwise disjoint", TECH + "shared-wire cross-talk oracle"),
  "C12": (EXPL, "the repository's real cBPF programs run in the x/net/bpf VM on every delivered frame plus synthesised frames over the inspected equivalence classes; verdict compared with a reference predicate, genuine replies must never be rejected; sampling over the class product", TECH + "real filter programs executed by the simulated capture handle"),
+ "C14": (EXPL, "free-running mode (no scheduler, so that the harness adds no happens-before edges) under the Go race detector at GOMAXPROCS 1/4/16: real engines/drivers/aggregation over an unsynchronised pre-seeded wire with early/stale replies and sender-stopping destination replies; any report with a repository frame is a violation keyed by its two access sites; dynamic detection on the explored runs only", "deterministic-simulation harness in free-running mode: synctest fake clock, pre-seeded unsynchronised wire (//go:norace hand-off), Go race detector as the oracle"),
  "C15": (EXPL, "seeded search over query counts, failing subsets (per-endpoint sentinel faults) and completion orders; all-or-error with exact counts, every cause exposed through errors.Join, public-IP failure never fatal", TECH + "per-endpoint fault injection in multi-run requests"),
  "C17": (EXPL, "modest claim: documents produced by the real pipeline over simulated topologies with private/public block-edge and IPv4-mapped responders, with and without reverse DNS, through the library and the HTTP handler; JSON compared hop by hop with the ledger", TECH + "ledger-vs-JSON redaction oracle"),
  "C18": (EXPL, "seeded search over resolver behaviours and completion orders of the concurrent lookups, cache call sequences around the 1 h / 2 h expiries on the virtual clock with concurrent callers, per-provider HTTP scripts with deterministic back-off; per-address attribution, cache history rule, provider order/stop/retry rules", TECH + "scripted DNS/HTTP services on the virtual clock, history-rule oracle"),
@@ -28,7 +29,7 @@ na = [
  {"property_id": "C13", "reason": "needs the real Linux kernel IP/ICMP/TCP stack, real AF_PACKET/raw sockets and kernel routers; replacing any of them by a simulated part removes what is being checked, and their scheduling cannot be put under a seeded controller (that is runtime observation, another technique)"},
  {"property_id": "C16", "reason": "pure function of an in-memory result document (statistics, id freshness, JSON field names): no schedule, clock, fault or interleaving influences it, so simulation has nothing to decide"},
 ]
-PENDING = {"C14": "free-running race-detector mode under construction in this round (DESIGN.md 2.9); not claimed until it runs clean"}
+PENDING = {}
 
 def main():
     import os, sys
